@@ -231,6 +231,9 @@ pub fn run(ctx: &Ctx) -> CheckOutput {
 		let want = crate::model::parse_dump(toml.items[i].0.as_ref().unwrap());
 		let got = reason.strip_prefix("value differs: got ").and_then(crate::model::parse_dump);
 		match (got, want) {
+			(Some(g), Some(w)) if explained_by_toml_nested_order(&g, &w) => {
+				tally.bad("toml-nested-array-of-tables-before-tables", case.clone(), format!("{desc}: TOML output {}: inside a nested table an array of tables was written before a table that preceded it in the input", show(out)));
+			}
 			(Some(g), Some(w)) => {
 				for (class, msg) in diff_classes(&[g], &[w]) {
 					tally.bad(format!("{class}:{}->toml", desc.split(':').nth(1).unwrap_or("?")), case.clone(), format!("{desc}: TOML output {}: {msg}", show(out)));
